@@ -80,6 +80,11 @@ func buildBank(seed int64) (*Scenario, error) {
 	// a request of 0
 	b.TxE(111, 112, "request of amount 0", users[5], Conv(users[5].FAAddress(), FCT, 0, PEG))
 	b.OPR(112, 25, price, nil)
+	// 112: a huge request next to tiny ones: their proportional share rounds down to 0 PEG, the
+	// whole input comes back as the refund (and must be recorded as such in the history)
+	b.TxE(112, 113, "huge request", users[3], Conv(users[3].FAAddress(), FCT, 3000*fct, PEG))
+	b.TxE(112, 113, "one unit of pUSD: 20 PEG units asked, share 0, refund 1", users[0], Conv(users[0].FAAddress(), USD, 1, PEG))
+	b.TxE(112, 113, "ten units of pUSD: share 4", users[0], Conv(users[0].FAAddress(), USD, 10, PEG))
 
 	menu := func(last uint64, blockTotal uint64) uint64 {
 		switch rng.Intn(7) {
